@@ -316,8 +316,31 @@ fn one_input(rep: &mut Report, prop: &str, focus: Focus, input: &[u8], limits: L
     }
     // --- encoder: 2-way segmentations x uniform methods x all drain pairs
     if drains_full {
+        // pipelined anchored reads: 3 pieces, each read before the previous one's drain
+        for (i, j) in if focus == Focus::Drain { three_way(n) } else { Vec::new() } {
+            for d1 in [D::None, D::ConsumeAll, D::AdvanceAll] {
+                for d2 in [D::ConsumeAll, D::AdvanceAll] {
+                    let pieces = pieces3(n, i, j, [M::Prefetched; 3], [d1, d2, D::None]);
+                    t.enc(input, &pieces, limits, false, &mut obs);
+                }
+            }
+        }
+        // over-asking drains (a consumer that asks for more than it was shown must get only what is consumable)
         for i in 0..=n {
-            for m in M3 {
+            for m in [M::Borrow, M::Copy] {
+                for d1 in OVER_DRAINS {
+                    for d2 in [D::None, D::ConsumePlus1, D::AdvancePlus1, D::ReadAll] {
+                        let pieces = pieces3(n, i, n, [m; 3], [d1, d2, D::None]);
+                        t.enc(input, &pieces, limits, false, &mut obs);
+                    }
+                }
+            }
+        }
+        for i in 0..=n {
+            for m in [M::Borrow, M::Copy, M::Anchored, M::Prefetched] {
+                if m == M::Prefetched && focus != Focus::Drain {
+                    continue;
+                }
                 for d1 in DRAINS {
                     for d2 in DRAINS {
                         let pieces = pieces3(n, i, n, [m; 3], [d1, d2, D::None]);
@@ -346,10 +369,21 @@ fn one_input(rep: &mut Report, prop: &str, focus: Focus, input: &[u8], limits: L
                 t.dec(e, &pieces, limits, false, &mut obs, Some(input));
             }
         }
+        if focus == Focus::Drain {
+            for d1 in [D::None, D::ConsumeAll, D::AdvanceAll] {
+                for d2 in [D::ConsumeAll, D::AdvanceAll] {
+                    let pieces = pieces3(en, i, j, [M::Prefetched; 3], [d1, d2, D::None]);
+                    t.dec(e, &pieces, limits, false, &mut obs, Some(input));
+                }
+            }
+        }
         if drains_full && j == en {
             for d1 in DRAINS {
                 for d2 in DRAINS {
-                    for m in [M::Borrow, M::Copy] {
+                    for m in [M::Borrow, M::Copy, M::Prefetched] {
+                        if m == M::Prefetched && focus != Focus::Drain {
+                            continue;
+                        }
                         let pieces = pieces3(en, i, en, [m; 3], [d1, d2, D::None]);
                         t.dec(e, &pieces, limits, false, &mut obs, Some(input));
                     }
@@ -398,7 +432,7 @@ pub fn tier1(ctx: &Ctx, rep: &mut Report, focus: Focus, unit: &mut usize) {
         (Focus::Output, Tier::Thorough) => (5, 7),
         (Focus::Format, Tier::Quick) => (5, 6),
         (Focus::Format, Tier::Thorough) => (6, 9),
-        (Focus::Drain, Tier::Quick) => (4, 6),
+        (Focus::Drain, Tier::Quick) => (4, 5),
         (Focus::Drain, Tier::Thorough) => (5, 7),
     };
     // the C05 / C10 clauses reuse this tier with shorter inputs (their deciding families are elsewhere)
